@@ -78,10 +78,12 @@ structure Keep (r r' : R) : Prop where
   exl : r'.exifLength = r.exifLength
   buffered : r'.buffered = r.buffered
   reads : r'.reads = r.reads
+  ex : r'.ex = r.ex
+  parsed : r'.parsed = r.parsed
 
-theorem Keep.refl (r : R) : Keep r r := ⟨rfl, rfl, rfl, rfl, rfl⟩
+theorem Keep.refl (r : R) : Keep r r := ⟨rfl, rfl, rfl, rfl, rfl, rfl, rfl⟩
 theorem Keep.trans {a b c : R} (h1 : Keep a b) (h2 : Keep b c) : Keep a c :=
-  ⟨h2.tags.trans h1.tags, h2.pos.trans h1.pos, h2.exl.trans h1.exl, h2.buffered.trans h1.buffered, h2.reads.trans h1.reads⟩
+  ⟨h2.tags.trans h1.tags, h2.pos.trans h1.pos, h2.exl.trans h1.exl, h2.buffered.trans h1.buffered, h2.reads.trans h1.reads, h2.ex.trans h1.ex, h2.parsed.trans h1.parsed⟩
 
 theorem Keep.discard (r : R) (n : Int) : Keep r (discard r n).1 := by
   unfold Exif.discard
@@ -90,12 +92,12 @@ theorem Keep.discard (r : R) (n : Int) : Keep r (discard r n).1 := by
   · dsimp only
     generalize (if (r.exifLength : Int) < n + r.po then (r.exifLength : Int) - r.po else n) = m
     repeat' split
-    all_goals exact ⟨rfl, rfl, rfl, rfl, rfl⟩
+    all_goals exact ⟨rfl, rfl, rfl, rfl, rfl, rfl, rfl⟩
 
 theorem Keep.fastRead (r : R) (n : Nat) : Keep r (fastRead r n).r := by
   unfold Exif.fastRead
   repeat' split
-  all_goals exact ⟨rfl, rfl, rfl, rfl, rfl⟩
+  all_goals exact ⟨rfl, rfl, rfl, rfl, rfl, rfl, rfl⟩
 
 /-- a forward seek inside the file and inside the Exif length succeeds and lands exactly on the target -/
 theorem discard_exact {F : Bytes} {r : R} (h : Coh F r) (k : Nat) (hF : r.po + k ≤ F.length) (hx : r.po + k ≤ r.exifLength) :
@@ -160,7 +162,7 @@ theorem Coh.readTagValue {F : Bytes} {r : R} (h : Coh F r) (t : Tag) : Coh F (re
   exact ⟨key.rest, key.le, key.small⟩
 
 theorem Keep.readTagValue0 (r : R) (t : Tag) : Keep r (readTagValue0 r t).r := by
-  have h0 : Keep r (if t.isEmbedded then { r with hazard := true } else r) := by split <;> exact ⟨rfl, rfl, rfl, rfl, rfl⟩
+  have h0 : Keep r (if t.isEmbedded then { r with hazard := true } else r) := by split <;> exact ⟨rfl, rfl, rfl, rfl, rfl, rfl, rfl⟩
   unfold Exif.readTagValue0
   dsimp only
   split
